@@ -792,7 +792,15 @@ func equivalentCheckConfigInV2(
 		translateSlice(undeprecateSlice(checkConfig.UseIDsAndCategories(), deprecations), toIDsInV2),
 		translateSlice(undeprecateSlice(checkConfig.ExceptIDsAndCategories(), deprecations), toIDsInV2),
 		checkConfig.IgnorePaths(),
-		translateIgnoreOnly(undeprecateMap(checkConfig.IgnoreIDOrCategoryToPaths(), deprecations), ignoreOnlyToIDsInV2),
+		translateIgnoreOnly(
+			checkConfig.IgnoreIDOrCategoryToPaths(),
+			func(id string) []string {
+				// A deprecated ID and one of its replacements may both be keys, their paths
+				// must be merged, which translateIgnoreOnly does, rather than one entry
+				// overwriting the other.
+				return translateSlice(undeprecateSlice([]string{id}, deprecations), ignoreOnlyToIDsInV2)
+			},
+		),
 		checkConfig.DisableBuiltin(),
 	)
 	if err != nil {
@@ -929,25 +937,6 @@ func undeprecateSlice(ids []string, deprecations map[string][]string) []string {
 			newIDs = append(newIDs, replacements...)
 		} else {
 			newIDs = append(newIDs, id)
-		}
-	}
-	return newIDs
-}
-
-// undeprecateMap transforms the given map of IDs to values so that any
-// deprecated IDs are replaced with their replacements per the given
-// deprecations. When there is more than one replacement, all entries
-// for the replacements will have the same value.
-func undeprecateMap[T any](idMap map[string]T, deprecations map[string][]string) map[string]T {
-	newIDs := make(map[string]T, len(idMap))
-	for id, val := range idMap {
-		replacements, ok := deprecations[id]
-		if ok {
-			for _, replacement := range replacements {
-				newIDs[replacement] = val
-			}
-		} else {
-			newIDs[id] = val
 		}
 	}
 	return newIDs
